@@ -984,23 +984,23 @@ func (rn *run) serveBackend(kind string, w http.ResponseWriter, req *http.Reques
 	case "grpc", "grpcweb":
 		d.Enc = req.Header.Get("Grpc-Encoding")
 		d.Accept = splitList(req.Header.Values("Grpc-Accept-Encoding"))
-		d.Timeout = req.Header.Get("Grpc-Timeout")
+		d.Timeout = strings.Join(req.Header.Values("Grpc-Timeout"), ",") // (several values are one malformed header)
 	case "connect_stream":
 		d.Enc = req.Header.Get("Connect-Content-Encoding")
 		d.Accept = splitList(req.Header.Values("Connect-Accept-Encoding"))
-		d.Timeout = req.Header.Get("Connect-Timeout-Ms")
+		d.Timeout = strings.Join(req.Header.Values("Connect-Timeout-Ms"), ",") // (several values are one malformed header)
 	case "connect_post":
 		d.Enc = req.Header.Get("Content-Encoding")
 		d.Accept = splitList(req.Header.Values("Accept-Encoding"))
-		d.Timeout = req.Header.Get("Connect-Timeout-Ms")
+		d.Timeout = strings.Join(req.Header.Values("Connect-Timeout-Ms"), ",") // (several values are one malformed header)
 	case "connect_get":
 		d.Enc = req.URL.Query().Get("compression")
 		d.Accept = splitList(req.Header.Values("Accept-Encoding"))
-		d.Timeout = req.Header.Get("Connect-Timeout-Ms")
+		d.Timeout = strings.Join(req.Header.Values("Connect-Timeout-Ms"), ",") // (several values are one malformed header)
 	case "rest":
 		d.Enc = req.Header.Get("Content-Encoding")
 		d.Accept = splitList(req.Header.Values("Accept-Encoding"))
-		d.Timeout = req.Header.Get("X-Server-Timeout")
+		d.Timeout = strings.Join(req.Header.Values("X-Server-Timeout"), ",") // (several values are one malformed header)
 	}
 	if d.Enc == "identity" {
 		d.Enc = ""
